@@ -626,9 +626,11 @@ func checkC04(cx *Ctx, r *Report) {
 		return
 	}
 	var signCall, sendCall ssa.CallInstruction
-	for _, c := range callsIn(crs) {
-		if f := calleeOf(c); f != nil && w.FuncKey(f) == "provider.BuildRedirectQuery" {
-			signCall = c
+	for _, g := range cx.privateHelpers(crs) {
+		for _, c := range callsIn(g) {
+			if f := calleeOf(c); f != nil && w.FuncKey(f) == "provider.BuildRedirectQuery" {
+				signCall = c
+			}
 		}
 	}
 	for _, g := range cx.privateHelpers(sb) {
@@ -648,7 +650,16 @@ func checkC04(cx *Ctx, r *Report) {
 		_, isC := signCall.Common().Args[3].(*ssa.Const)
 		r.Check(isC && sg == "", "R-VFG", "redirect:sign-without-signature-slot", w.InstrPos(signCall), "the string signed has no Signature parameter", "the string that is signed already contains a Signature parameter")
 		// sigAlg at the signing site is the raw algorithm parameter
-		r.Check(fx.T(fx.path(signCall.Common().Args[2])) == "<#3 string>", "R-VFG", "redirect:signed-sigalg", w.InstrPos(signCall), "the configured algorithm URI", "the SigAlg that is signed is not the plain algorithm URI")
+		// (through the parameters of a private piece of the signing function to what it was handed there)
+		sigAlgArg := signCall.Common().Args[2]
+		for hop := 0; hop < 3; hop++ {
+			prm, isP := sigAlgArg.(*ssa.Parameter)
+			if !isP || prm.Parent() == crs || len(fx.argsOf[prm]) != 1 {
+				break
+			}
+			sigAlgArg = fx.argsOf[prm][0]
+		}
+		r.Check(fx.T(fx.path(sigAlgArg)) == "<#3 string>" && (sigAlgArg.Parent() == nil || sigAlgArg.Parent() == crs), "R-VFG", "redirect:signed-sigalg", w.InstrPos(signCall), "the configured algorithm URI", "the SigAlg that is signed is not the plain algorithm URI")
 		// sending site uses the Response fields
 		for i, f := range map[int]string{1: "<provider.Response>.RelayState", 2: "<provider.Response>.SigAlg", 3: "<provider.Response>.Signature"} {
 			p := fx.T(fx.path(sendCall.Common().Args[i]))
